@@ -447,7 +447,22 @@ const c07HandSchema = `module hand { namespace "urn:hand"; prefix h; revision 20
  list p { key "k1 k2"; leaf k1 { type string; } leaf k2 { type uint8; } leaf-list ll { type string; } }
 }`
 
-func c07Case(ctx *core.Ctx, r *gen.Rng, m *meta.Module, root *tree.SNode, yang string, data *tree.Cont, t c07target, ps []qparam, label string) error {
+// c07Prelude collects Gallina definitions shared by the cases of one run: the kids and the content
+// at a target are emitted once (as `Definition c07k<i>` / `c07d<i>`) and referred to by name in
+// the ~60 cases that query that target; this keeps the case files small (elaboration of the
+// literals dominates the cost of classification).
+var c07Prelude []string
+
+func c07Shared(t c07target) (kidsName, dataName string) {
+	i := len(c07Prelude) / 2
+	kidsName, dataName = fmt.Sprintf("c07k%d", i), fmt.Sprintf("c07d%d", i)
+	c07Prelude = append(c07Prelude,
+		fmt.Sprintf("Definition %s : list snode := %s", kidsName, t.s.KidsTerm()),
+		fmt.Sprintf("Definition %s : content := %s", dataName, t.data.ContentTerm(t.s)))
+	return
+}
+
+func c07Case(ctx *core.Ctx, r *gen.Rng, m *meta.Module, root *tree.SNode, yang string, data *tree.Cont, t c07target, kidsName, dataName string, ps []qparam, label string) error {
 	qs := queryString(r, ps)
 	before := data.ContentTerm(root)
 	capture := tree.NewCont()
@@ -514,7 +529,7 @@ func c07Case(ctx *core.Ctx, r *gen.Rng, m *meta.Module, root *tree.SNode, yang s
 		seen[p.name] = true
 		kinds = append(kinds, p.name)
 	}
-	term := emit.App("CRead", t.s.KidsTerm(), t.data.ContentTerm(t.s), emit.List(pairs), emit.List(asts), emit.Bool(unchanged), obs)
+	term := emit.App("CRead", kidsName, dataName, emit.List(pairs), emit.List(asts), emit.Bool(unchanged), obs)
 	call := "Constrain"
 	if viaFind {
 		call = "Find"
@@ -539,10 +554,17 @@ func c07Case(ctx *core.Ctx, r *gen.Rng, m *meta.Module, root *tree.SNode, yang s
 
 // C07: query parameters return exactly the defined projection of the full read.
 func C07(ctx *core.Ctx) error {
-	ctx.Imports = "Val.Model Tree.Schema Tree.PathExpr Tree.Params Check.C07Check"
 	ctx.Rule = "query = (schema: generated with lists, defaults, leaf-lists, config-false sub-trees, or the hand-written one with config-false leaves and nested lists) x data x target selection (root, container, list entry) x parameter string: every depth 1..8, every content value, with-defaults, field-path expressions enumerated over the schema (nested, alternatives, groups, unknown names) for fields and fc.xfields, row windows (empty, inverted, open, out of range) on every list, fc.max-node-count around the container count, invalid values, all pairs and random triples of parameters; two spellings of the query string; via Constrain or Find(path?query); distinct by SHA-256 of the case term; non-trivial = at least one parameter and a non-empty target"
+	ctx.ShardMax = 100000 // many small shards: the classification runs in parallel
+	c07Prelude = nil
+	defer func() {
+		// core.Ctx writes Imports into "From YV Require Import Base.Verdict %s." of every shard:
+		// the shared definitions ride behind the import list (the final '.' closes the last one)
+		ctx.Imports = "Val.Model Tree.Schema Tree.PathExpr Tree.Params Check.C07Check.\nImport ListNotations.\nOpen Scope Z_scope.\n" +
+			strings.Join(c07Prelude, ".\n")
+	}()
 	r := gen.New(ctx.Seed)
-	nSchemas := ctx.Scale(5, 60)
+	nSchemas := ctx.Scale(4, 60)
 	targetsPer := ctx.Scale(2, 4)
 	for n := 0; n < nSchemas; n++ {
 		var yang string
@@ -573,8 +595,9 @@ func C07(ctx *core.Ctx) error {
 		for ti, t := range chosen {
 			g := &c07gen{r: dr.Fork(uint64(ti)), t: t}
 			g.paths, g.lists = schemaPaths(t.s, 3)
+			kidsName, dataName := c07Shared(t)
 			add := func(label string, ps ...qparam) error {
-				return c07Case(ctx, g.r, m, root, yang, data, t, ps, label)
+				return c07Case(ctx, g.r, m, root, yang, data, t, kidsName, dataName, ps, label)
 			}
 			// no parameters at all
 			if err := add("none"); err != nil {
